@@ -384,8 +384,8 @@ def _rm_gen(rng, tier):
         ok = True
         me = strax.endtime(merge)
         for j, (s_, e_) in enumerate(merged):
-            if me[j] <= orig[e_]["time"]:
-                ok = False
+            if me[j] <= orig[e_]["time"] or me[j] > strax.endtime(orig[e_:e_ + 1])[0]:
+                ok = False      # (also left out: a span shorter than one sample of the coarser grid, where the merged peak would reach beyond its last constituent)
         if len(merge) and ok:
             yield dict(orig=orig, merge=merge)
 
